@@ -496,6 +496,8 @@ class Flat:
                             while k - o >= w:
                                 out.append('IR_CPY%d(%s + %dull, %s + %dull);' % (w * 8, args[0], o, args[1], o)); o += w
                         return ' '.join(out) or ';'
+                    al = d.get('aligns') or [1, 1]
+                    if min(al[0], al[1]) >= 8: return 'ir_memmove_a8(%s, %s, %s);' % (args[0], args[1], args[2])   # both operands 8-aligned by the IR's own align attributes
                     return 'ir_memmove(%s, %s, %s);' % (args[0], args[1], args[2])
                 if n.startswith('llvm.memset'):
                     m = re.fullmatch(r'(\d+)ull', args[2])
